@@ -60,6 +60,8 @@ func guardRangeObl(P *Program, R *Report, rule, construct, subjName string, subj
 
 func init() {
 	register("C01",
+		Rule{ID: "C01.i", Explain: "the derived lengths are the specified ones: MakeDerivedParameters computes every derived system parameter as the linear combination of the base parameters that the Idemix specification gives (Le = Lstatzk+Lh+Lm+5, LeCommit = LePrime+Lstatzk+Lh, LmCommit = Lm+Lstatzk+Lh, LsCommit = LmCommit+1, Lv = Ln+2*Lstatzk+Lh+Lm+4, LvCommit = Lv+Lstatzk+Lh, LRA = LvPrime = Ln+Lstatzk, LvPrimeCommit = Ln+2*Lstatzk+Lh), compared as normalised affine forms (how the sum is written does not matter). Prover randomizers and the verifier's response bounds both read these values, so a wrong one keeps honest flows working while widening what the verifier accepts (an e-response bound derived from Le instead of LePrime admits the trivial signature e = 1).",
+			Run: func(P *Program, R *Report) { derivedParametersRule(P, R, "C01.i") }},
 		Rule{ID: "C01.a", Explain: "(*ProofD).VerifyWithChallenge: on every accepting path the proof's own C was compared equal to the challenge parameter (must-pass over the SSA CFG, callee-aware). Does not decide soundness of the Schnorr proof.",
 			Run: func(P *Program, R *Report) {
 				fn := mustFunc(P, R, "C01.a", kProofDVWC)
@@ -384,4 +386,45 @@ func guardUpperIs(g Guard, upperExcl Term) bool {
 		return ok && termPow2(k).norm().equal(upperExcl.norm())
 	}
 	return false
+}
+
+// derivedParametersRule: see C01.i.
+func derivedParametersRule(P *Program, R *Report, rule string) {
+	fn := mustFunc(P, R, rule, "gabikeys.MakeDerivedParameters")
+	if fn == nil {
+		return
+	}
+	want := map[string]string{
+		"Le": "Lh + Lm + Lstatzk + 5", "LeCommit": "LePrime + Lh + Lstatzk", "LmCommit": "Lh + Lm + Lstatzk", "LRA": "Ln + Lstatzk",
+		"LsCommit": "Lh + Lm + Lstatzk + 1", "Lv": "Lh + Lm + Ln + 2*Lstatzk + 4", "LvCommit": "2*Lh + Lm + Ln + 3*Lstatzk + 4",
+		"LvPrime": "Ln + Lstatzk", "LvPrimeCommit": "Lh + Ln + 2*Lstatzk",
+	}
+	got := map[string]string{}
+	allInstrs(fn, func(i ssa.Instruction) {
+		st, ok := i.(*ssa.Store)
+		if !ok {
+			return
+		}
+		fa, ok := st.Addr.(*ssa.FieldAddr)
+		if !ok || !strings.HasSuffix(typeShort(fa.X.Type()), "gabikeys.DerivedParameters") {
+			return
+		}
+		a, okA := affineOf(st.Val)
+		if !okA {
+			got[faName(fa)] = "not a linear form"
+			return
+		}
+		// symbols are the base parameter's fields: keep the field names
+		b := Affine{C: a.C, S: map[string]int64{}}
+		for k, v := range a.S {
+			if j := strings.LastIndex(k, "."); j >= 0 {
+				k = k[j+1:]
+			}
+			b.S[k] += v
+		}
+		got[faName(fa)] = b.String()
+	})
+	for f, w := range want {
+		R.decide(rule, "gabikeys.MakeDerivedParameters:"+f, f+" = "+w, got[f] == strings.ReplaceAll(w, " ", ""), "computed: "+got[f], P.Pos(fn.Pos()))
+	}
 }
